@@ -8,7 +8,8 @@ from ..val import veq, clone, seq
 from .c15 import roundtrip
 
 ID = 'C16'
-SIZES = {'quick': 1500, 'thorough': 40000}
+SIZES = {'quick': 1500, 'thorough': 80000}
+REQUIRED_EVENTS = ['intersections_agreed', 'migrations_ok', 'self_intersections']
 RULE = ('sets of 2-4 map-rooted, null-free, $-free trees derived from a common ancestor by the C15 edit scripts (list reordering/duplication, '
         'kind changes, retyped scalars) plus unrelated trees, in every generated argument order and format mix. The real bkli output R is '
         'compared with an independent intersection (lists as multisets of entries under deep equality, $required exactly where all inputs have '
